@@ -11,6 +11,19 @@ ID = "C15"
 PROPS_FILE = "Props/C15.v"
 COQ_TARGETS = ["Harness/H15.vo"]
 ALLOWED_AXIOMS = []
+# second tie (translator): coq/Gen/Core.v is regenerated from the source text of C.REPO on every run and
+# coq/Tie/T15.v proves generated definition = hand model (harness/translate/py2coq_core.py)
+EXTRA_PROPS = ["Tie/T15.v"]
+
+
+def prebuild(ctx):
+    import os
+    import sys
+    sys.path.insert(0, os.path.join(C.VERIF, "harness", "translate"))
+    import py2coq_core
+    py2coq_core.prebuild(ctx, C, ["Hypervolume.dominates", "Hypervolume.swap", "Hypervolume.surface_unchanged_to", "Hypervolume.reduce_set"])
+
+
 META = {
     "level_text": "Machine-checked proof (Coq, exact rational arithmetic) that the literal model of Hypervolume.calculate -- feasibility filter, core.normalize "
                   "writing normalized_objectives onto the solution objects (store keyed by object identity), direction-aware worse-than-nadir filter, invert/clip "
@@ -54,13 +67,12 @@ class time_limit:
         raise CallTimeout()
 
     def __enter__(self):
-        self.old = signal.signal(signal.SIGALRM, self._raise)
-        signal.setitimer(signal.ITIMER_REAL, self.seconds)
+        # CPU-time limit with a wall-clock backstop (a wall-clock limit alone can fire on a loaded machine)
+        self.inner = C.cpu_time_limit(self.seconds, exc=CallTimeout)
+        self.inner.__enter__()
 
     def __exit__(self, *a):
-        signal.setitimer(signal.ITIMER_REAL, 0)
-        signal.signal(signal.SIGALRM, self.old)
-        return False
+        return self.inner.__exit__(*a)
 
 
 # ----------------------------------------------------------------------------
